@@ -585,7 +585,11 @@ def record(tier, seed, path):
                Reduce[ops.AssociativeOp, Funsor, typing.FrozenSet[Funsor]],
                _Con[ops.Op, ops.Op, typing.FrozenSet[Variable], typing.Tuple[Funsor, ...]],
                _Con[ops.AddOp, ops.MulOp, typing.FrozenSet[Variable], typing.Tuple[Tensor, Tensor]],
-               Subs[Funsor, typing.Tuple[typing.Tuple[str, Funsor], ...]]):
+               Subs[Funsor, typing.Tuple[typing.Tuple[str, Funsor], ...]],
+               # frozensets whose ELEMENT type is itself parametrised (covariance must look inside)
+               typing.FrozenSet[typing.Tuple[int, str]], typing.FrozenSet[typing.Tuple[str, str]],
+               typing.FrozenSet[typing.Union[int, str]], typing.FrozenSet[int], typing.FrozenSet[str],
+               typing.FrozenSet[typing.Tuple[int, ...]]):
         try:
             add(T.intern(tp))
         except Exception:  # noqa
